@@ -17,7 +17,7 @@ def jobs(pid, mode, tier, defines=(), want=('free', 'ws', 'str', 'nest', 'wide')
         for n in range(0, N + 1):
             add('free%d' % n, [0, n], 'every byte string of length %d' % n, nproc=(1 if n <= 3 else 16), timeout=3000)
     if 'ws' in want:
-        ks = [1, 2, 31, 32, 33, 63, 64, 65] if q else [1, 2, 29, 30, 31, 32, 33, 34, 35, 61, 62, 63, 64, 65, 66, 67, 127, 128, 129, 130]
+        ks = [1, 32, 33, 64, 65] if q else [1, 2, 29, 30, 31, 32, 33, 34, 35, 61, 62, 63, 64, 65, 66, 67, 127, 128, 129, 130]
         m = 3 if q else 4
         for k in ks:
             for g in range(0, m + 1):
